@@ -14,7 +14,8 @@ MECH = {
  'C11': "float-zero keys",
  'C12': "printer / reader asymmetries (12 literal forms)",
  'C13': "binders introduced through `let*` / `letrec` / `do` / named-let templates not renamed when the user's variable is a global or a define-shorthand parameter; free identifiers of top-level macros captured by local use-site bindings",
- 'C14': "a module whose dependency failed at run time during its first require stays 'compiled' but uninstantiated: later requires fail",
+ 'C14': "a module whose dependency failed at run time during its first require stays 'compiled' but uninstantiated: later requires fail; alias names of a module's renaming import leak to its requirer; only-in at top level breaks a dependency's prefixed import of the same module in the same unit",
+ 'C16': "code that never reaches a safepoint (module-defined self tail loops compiled to an in-place native loop) blocks every stop-the-world operation of other threads",
  'C17': "self tail loops of module-defined functions compiled to an in-place native loop never poll (17 shapes, JIT on)",
  'C18': "deep chains (10^5..10^6) abort in drop / hash / traversal; printing cycles that pass through a hash map diverges (Debug of the map leaves the cycle-aware traversal); `write` of cycles overflows; hashing a cyclic key overflows; `equal?` of two pure box cycles diverges",
  'C20': "f32 overflow to infinity at the boundary",
